@@ -43,12 +43,17 @@ def true_min(c):
     return None
 
 
-def candidate_rules(pack, c):
-    """Every rule a strategy of the pack (factories unfolded) produces when applied to c."""
+def candidate_rules(pack, c, universe=()):
+    """Every rule a strategy of the pack produces for the class c: strategies applied to c, factories applied to c, and
+    rules for c that a factory yields when applied to another known class (rules whose parent differs from the expanded
+    class)."""
     out = []
     for strat in pack:
         if isinstance(strat, StrategyFactory):
             items = list(strat(c))
+            for other in universe:
+                if other != c:
+                    items += [x for x in strat(other) if not isinstance(x, AbstractStrategy) and x.comb_class == c]
         else:
             items = [strat]
         for x in items:
@@ -64,13 +69,13 @@ def candidate_rules(pack, c):
     return out
 
 
-def check_genuine(pack, rule, what):
+def check_genuine(pack, rule, what, universe=()):
     """A plain Rule / VerificationRule is what some strategy of the pack really produces on its class."""
     if isinstance(rule.strategy, EmptyStrategy):
         if not truly_empty(rule.comb_class):
             raise Bad("%s: empty rule for %r which is not empty" % (what, rule.comb_class))
         return
-    for cand in candidate_rules(pack, rule.comb_class):
+    for cand in candidate_rules(pack, rule.comb_class, universe):
         if type(cand.strategy) is type(rule.strategy) and tuple(cand.children) == tuple(rule.children):
             return
     raise Bad("%s: rule %r -> %r by %r is not produced by any strategy of the pack on that class" % (
@@ -112,6 +117,7 @@ def assert_valid(ctx, spec=None):
             return
         raise Bad("no specification found: %r" % (ctx.error,))
     pack = ctx.pack
+    known = list(spec.comb_classes())
     rd = dict(spec.rules_dict)
     if spec.root not in rd:
         raise Bad("the start class has no rule")
@@ -145,24 +151,24 @@ def assert_valid(ctx, spec=None):
                 orig = base.original_rule
                 if isinstance(orig, ReverseRule):
                     oo = orig.original_rule
-                    check_genuine(pack, oo, "reverse of equivalence")
+                    check_genuine(pack, oo, "reverse of equivalence", known)
                     if oo.children[orig.idx] != base.comb_class or oo.comb_class != base.children[0]:
                         raise Bad("reverse equivalence rule does not match its original")
                     if any(not truly_empty(x) for i, x in enumerate(oo.children) if i != orig.idx):
                         raise Bad("equivalence form although a sibling is not empty: %r" % (oo.children,))
                 else:
-                    check_genuine(pack, orig, "equivalence")
+                    check_genuine(pack, orig, "equivalence", known)
                     ne = [x for x in orig.children if not truly_empty(x)]
                     if ne != [base.children[0]] or orig.comb_class != base.comb_class:
                         raise Bad("equivalence form of %r has non-empty children %r, rule says %r" % (orig.comb_class, ne, base.children))
             elif isinstance(base, ReverseRule):
                 oo = base.original_rule
-                check_genuine(pack, oo, "reverse")
+                check_genuine(pack, oo, "reverse", known)
                 want = (oo.comb_class,) + tuple(x for i, x in enumerate(oo.children) if i != base.idx)
                 if base.comb_class != oo.children[base.idx] or tuple(base.children) != want:
                     raise Bad("reverse rule does not match its original: %r -> %r" % (base.comb_class, base.children))
             else:
-                check_genuine(pack, base, "rule")
+                check_genuine(pack, base, "rule", known)
     # 4. productive, judged from (parent, children, shifts) only, shifts from first principles
     label = {}
 
